@@ -36,7 +36,9 @@ pub enum Payload { Unit, Tuple(Vec<Ty>), Named(Vec<(String, Ty)>) }
 pub struct EnumDef { pub name: String, pub repr: Option<&'static str>, pub variants: Vec<(String, Payload, Option<i128>)> }
 
 #[derive(Clone, Debug)]
-pub struct Var { pub name: String, pub ty: Ty, pub truth: T, pub family: String, pub shape: String }
+pub struct Var { pub name: String, pub ty: Ty, pub truth: T, pub family: String, pub shape: String,
+                 /// what the generator knows about the construction beyond the value (used only to classify an oracle failure)
+                 pub hint: Option<&'static str> }
 
 pub struct Program {
     pub krate: String,
@@ -396,9 +398,23 @@ pub fn generate(profile: &str, seed: u64, krate: &str) -> Program {
     let mut g = Gen::new(&mut rng);
     let mut locals: Vec<Var> = vec![];
     let mut lets: Vec<String> = vec![];
-    let nvars = match profile { "bigdeque" => 1, "scalars" => 24, _ => 14 };
+    if profile == "witness" {
+        g.d.enums.push(EnumDef { name: "W0".into(), repr: Some("u8"), variants: vec![("V0".into(), Payload::Tuple(vec![Ty::Int("u16")]), Some(3)), ("V1".into(), Payload::Unit, Some(255))] });
+    }
+    let witness: Vec<(Ty, String, T)> = vec![
+        (Ty::Enum(0), "W0::V1".into(), T::Variant("V1".into(), vec![])),
+        (Ty::Enum(0), "W0::V0(7)".into(), T::Variant("V0".into(), vec![("__0".into(), T::Num("7".into()))])),
+        (Ty::Opt(Box::new(Ty::Int("u128"))), "Some(5u128)".into(), T::Variant("Some".into(), vec![("__0".into(), T::Num("5".into()))])),
+        (Ty::Opt(Box::new(Ty::Int("i128"))), "None".into(), T::Variant("None".into(), vec![])),
+        (Ty::BMap(Box::new(Ty::Int("u32")), Box::new(Ty::String)), "BTreeMap::new()".into(), T::Map(vec![])),
+        (Ty::BSet(Box::new(Ty::Int("i64"))), "BTreeSet::new()".into(), T::Set(vec![])),
+        (Ty::Array(Box::new(Ty::Int("u8")), 3), "[1u8, 2, 3]".into(), T::Seq(vec![T::Num("1".into()), T::Num("2".into()), T::Num("3".into())])),
+        (Ty::BMap(Box::new(Ty::Int("u32")), Box::new(Ty::Int("u8"))), "{ let mut m = BTreeMap::new(); m.insert(1u32, 2u8); m.remove(&1u32); m }".into(), T::Map(vec![])),
+    ];
+    let nvars = match profile { "bigdeque" => 1, "scalars" => 24, "witness" => witness.len(), _ => 14 };
     for i in 0..nvars {
         let ty = match profile {
+            "witness" => witness[i].0.clone(),
             "scalars" => match i % 4 { 0 | 1 => g.scalar_ty(), 2 => { let d = g.rng.below(2) as u32; g.ty(1 + d) }, _ => Ty::Opt(Box::new(g.scalar_ty())) },
             "colls" => { let e = g.rng.below(2) as u32; let el = Box::new(g.ty(e)); let k = Box::new(g.key_ty(1));
                 match i % 7 { 0 => Ty::Vec(el), 1 => Ty::Deque(el), 2 => Ty::HMap(k, el), 3 => Ty::HSet(k), 4 => Ty::BMap(k, el), 5 => Ty::BSet(k), _ => Ty::String } }
@@ -415,20 +431,21 @@ pub fn generate(profile: &str, seed: u64, krate: &str) -> Program {
             // the confirmed defect: capacity 16000 > CAP_GUARD, head 11990
             ("{ let mut d = VecDeque::<u32>::with_capacity(16000); for i in 0..12000u32 { d.push_back(i); } for _ in 0..11990 { d.pop_front(); } d }".to_string(),
              T::Seq((11990..12000u32).map(|i| T::Num(i.to_string())).collect()))
-        } else { g.val(&ty) };
+        } else if profile == "witness" { (witness[i].1.clone(), witness[i].2.clone()) } else { g.val(&ty) };
         let name = format!("v{i}");
         lets.push(format!("    let {name}: {} = {expr};", g.src(&ty)));
-        locals.push(Var { name, family: g.family(&ty).to_string(), shape: shape_of(&truth), ty, truth });
+        let hint = if profile == "bigdeque" { Some("vecdeque-capacity-above-guard-wrong-elements") } else { None };
+        locals.push(Var { name, family: g.family(&ty).to_string(), shape: shape_of(&truth), ty, truth, hint });
     }
     // arguments of the probe function: a few by-value and by-reference values
     let mut args: Vec<Var> = vec![];
     let mut arg_exprs = vec![];
     if profile != "bigdeque" {
-        for i in 0..4 {
-            let ty = match i { 0 => g.scalar_ty(), 1 => Ty::Tuple(vec![g.scalar_ty(), g.scalar_ty()]), 2 => Ty::Str, _ => { let d = g.rng.below(2) as u32; Ty::Vec(Box::new(g.ty(d))) } };
+        for i in 0..(if profile == "witness" { 1 } else { 4 }) {
+            let ty = match i { _ if profile == "witness" => Ty::Vec(Box::new(Ty::Int("u64"))), 0 => g.scalar_ty(), 1 => Ty::Tuple(vec![g.scalar_ty(), g.scalar_ty()]), 2 => Ty::Str, _ => { let d = g.rng.below(2) as u32; Ty::Vec(Box::new(g.ty(d))) } };
             let (expr, truth) = g.val(&ty);
             arg_exprs.push(expr);
-            args.push(Var { name: format!("a{i}"), family: g.family(&ty).to_string(), shape: shape_of(&truth), ty, truth });
+            args.push(Var { name: format!("a{i}"), family: g.family(&ty).to_string(), shape: shape_of(&truth), ty, truth, hint: None });
         }
     }
     // statics
@@ -440,7 +457,7 @@ pub fn generate(profile: &str, seed: u64, krate: &str) -> Program {
             let (expr, truth) = g.val(&ty);
             let name = format!("G{i}_{}", krate.to_uppercase());
             static_text += &format!("static {name}: {} = {expr};\n", g.src(&ty));
-            statics.push(Var { name, family: format!("static-{}", g.family(&ty)), shape: shape_of(&truth), ty, truth });
+            statics.push(Var { name, family: format!("static-{}", g.family(&ty)), shape: shape_of(&truth), ty, truth, hint: None });
         }
     }
     let mut src = String::new();
